@@ -61,6 +61,16 @@ func compressRaw(in []byte, crc bool, parts []int) (res CompressResult) {
 	if parts == nil {
 		parts = []int{len(in)}
 	}
+	// io.Writer: "Write must not modify the slice data, even temporarily" - the input is served from the middle of a
+	// larger array and the whole array is compared afterwards
+	original := in
+	spool, view := inSpool(in)
+	in = view
+	defer func() {
+		if d := spoolDamage(spool, original); d != "" && res.WriteErr == "" {
+			res.WriteErr = "the Writer changed the memory its input was served from: " + d
+		}
+	}()
 	off := 0
 	for i, k := range parts {
 		n, err := w.Write(in[off : off+k])
@@ -132,7 +142,39 @@ func (s Source) String() string {
 // Sources used in rotation. bytes.Reader is an io.ByteReader/io.Seeker/io.WriterTo; the chunk
 // readers are plain io.Readers that return short reads; dataerr returns the final bytes together
 // with io.EOF, which io.Reader permits.
-var Sources = []Source{{Kind: "bytes"}, {Kind: "chunk", K: 1}, {Kind: "chunk", K: 7, Seed: 1}, {Kind: "dataerr", K: 5}, {Kind: "chunk", K: 4096, Seed: 2}}
+var Sources = []Source{{Kind: "bytes"}, {Kind: "chunk", K: 1}, {Kind: "chunk", K: 7, Seed: 1}, {Kind: "dataerr", K: 5}, {Kind: "chunk", K: 4096, Seed: 2}, {Kind: "buffer"}, {Kind: "open"}}
+
+// The compressed stream is always served out of the middle of a larger array (a spool that holds other data in front
+// of and behind it, as a mail spool or a receive buffer does): the slice handed to the source ends at the stream's last
+// byte but its capacity reaches further. Reading a stream must not change a single byte of that array - neither the
+// stream nor its neighbours. spoolDamage says what changed.
+const spoolMargin = 48
+
+func inSpool(stream []byte) (spool, view []byte) {
+	spool = make([]byte, len(stream)+2*spoolMargin)
+	for i := range spool {
+		spool[i] = 0xA5 ^ byte(i*7)
+	}
+	copy(spool[spoolMargin:], stream)
+	return spool, spool[spoolMargin : spoolMargin+len(stream)] // cap(view) includes the bytes behind the stream
+}
+
+func spoolDamage(spool, stream []byte) string {
+	for i := range spool {
+		want := 0xA5 ^ byte(i*7)
+		where := "in front of"
+		switch {
+		case i >= spoolMargin && i < spoolMargin+len(stream):
+			want, where = stream[i-spoolMargin], "inside"
+		case i >= spoolMargin+len(stream):
+			where = "behind"
+		}
+		if spool[i] != want {
+			return fmt.Sprintf("byte %d %s the stream (offset %d relative to its start) changed from %#02x to %#02x", i, where, i-spoolMargin, want, spool[i])
+		}
+	}
+	return ""
+}
 
 type chunkReader struct {
 	b       []byte
@@ -143,6 +185,7 @@ type chunkReader struct {
 	// source carries on afterwards (an expired read deadline, iotest.TimeoutReader)
 	failAt int
 	off    int
+	beyond int // Read calls made after the last byte had been delivered
 }
 
 // ErrTransient is the one-shot error of the "transient" source.
@@ -153,6 +196,9 @@ func (c *chunkReader) Read(p []byte) (int, error) {
 		return 0, nil
 	}
 	if len(c.b) == 0 {
+		// on a connection that stays open after the message (a TNC link, a TCP session in a request/response exchange)
+		// this call would block until the remote says something else: remember that it was made
+		c.beyond++
 		return 0, io.EOF
 	}
 	n := c.k
@@ -181,12 +227,16 @@ func (s Source) Open(stream []byte) io.Reader {
 	switch s.Kind {
 	case "bytes":
 		return bytes.NewReader(stream)
+	case "buffer": // what fbb hands over: a *bytes.Buffer (it exposes Bytes(), Len(), WriteTo, ReadByte ...)
+		return bytes.NewBuffer(stream)
 	case "chunk", "dataerr":
 		c := &chunkReader{b: stream, k: max(s.K, 1), dataErr: s.Kind == "dataerr", failAt: -1}
 		if s.Seed != 0 {
 			c.r = vrt.Rand(s.Seed, "chunk", len(stream))
 		}
 		return c
+	case "open": // like chunk 61, and the driver reports Read calls made after the last byte (ReadResult.BeyondEnd)
+		return &chunkReader{b: stream, k: 61, failAt: -1, r: vrt.Rand(7, "open", len(stream))}
 	case "transient": // K = offset of the byte whose delivery fails once
 		return &chunkReader{b: stream, k: 7, failAt: s.K}
 	}
@@ -228,8 +278,12 @@ type ReadResult struct {
 	PanicIn     string // NewReader | Read | Close
 	Style       string // copy-style plans: how the bytes behind the head were taken
 	GrowMax     int    // copy-style plans: the largest reservation the Reader asked its destination for (information)
-	Spun        bool   // the call burnt SpinCPU of CPU time without returning (worker must be retired)
-	Abandoned   bool   // the call did not return within SpinWall without burning that CPU (inconclusive)
+	// BeyondEndAt (chunk-style sources): number of output bytes the driver had received when the Reader first called its
+	// source after the stream's last byte had been delivered; -1 = never. On a source that stays open such a call blocks.
+	BeyondEndAt  int64
+	SourceDamage string // "" or which byte of the array the stream was served from was changed by reading it
+	Spun         bool   // the call burnt SpinCPU of CPU time without returning (worker must be retired)
+	Abandoned    bool   // the call did not return within SpinWall without burning that CPU (inconclusive)
 }
 
 // Decompress runs a fresh lzhuf.Reader over stream and records what it does. Close is always
@@ -245,6 +299,7 @@ func Decompress(stream []byte, crc bool, src Source, plan ReadPlan, lim Limits) 
 
 func decompressRaw(stream []byte, crc bool, src Source, plan ReadPlan, lim Limits) (res ReadResult) {
 	stage := "NewReader"
+	sampleBeyond := func() {}
 	defer func() {
 		if r := recover(); r != nil {
 			v := vrt.PanicViolation(r, debug.Stack())
@@ -255,7 +310,29 @@ func decompressRaw(stream []byte, crc bool, src Source, plan ReadPlan, lim Limit
 	if lim.MaxZeroReads == 0 {
 		lim.MaxZeroReads = 1000
 	}
-	rd, err := lzhuf.NewReader(src.Open(stream), crc)
+	original := stream
+	spool, view := inSpool(stream)
+	stream = view
+	defer func() { res.SourceDamage = spoolDamage(spool, original) }()
+	source := src.Open(stream)
+	if cr, ok := source.(*chunkReader); ok {
+		// how many output bytes had been handed out when the Reader first asked its source for input beyond the stream's
+		// last byte (-1: it never did). Sampled after every Read call of the driver.
+		res.BeyondEndAt = -1
+		defer func() {
+			if cr.beyond > 0 && res.BeyondEndAt < 0 {
+				res.BeyondEndAt = res.Total
+			}
+		}()
+		sampleBeyond = func() {
+			if cr.beyond > 0 && res.BeyondEndAt < 0 {
+				res.BeyondEndAt = res.Total
+			}
+		}
+	} else {
+		res.BeyondEndAt = -1
+	}
+	rd, err := lzhuf.NewReader(source, crc)
 	if err != nil {
 		res.NewErr = err
 		return res
@@ -335,6 +412,7 @@ func decompressRaw(stream []byte, crc bool, src Source, plan ReadPlan, lim Limit
 			buf = make([]byte, k)
 		}
 		p := buf[:k]
+		sampleBeyond() // before the call: what the previous calls (and NewReader) did
 		n, err := rd.Read(p)
 		res.Reads++
 		if n < 0 || n > len(p) {
